@@ -164,6 +164,80 @@ def pipeline(src, adaptors, term):
                   ["print", [S("side"), ["var", "side"], ["var", "cnt"]]]]
 
 
+# ---- size dependent behaviour: lists whose length crosses the thresholds at which library algorithms switch (sorting, growth)
+BIG_SIZES = [0, 1, 2, 3, 7, 8, 9, 16, 17, 20, 31, 32, 33, 34, 50, 63, 64, 65, 100, 200, 257]
+BIG_MODS = [1, 2, 5, 0]  # number of distinct keys (0 = all distinct)
+
+
+def fmt_num(x):
+    return str(int(x)) if x == int(x) else repr(x)
+
+
+def fmt_list(xs):
+    return "[" + ", ".join(fmt_num(x) for x in xs) + "]"
+
+
+def big_program(n, m):
+    """records [key, index] with many ties: a stable sort keeps the indices of equal keys in their original order"""
+    mod = m or max(n, 1)
+    keys = [(i * 7 + 3) % mod for i in range(n)]
+    src = ("let l = [];\nfor i in %d.times() { let k = i * 7 + 3; l.push([k - (k / %d).floor() * %d, i]); }\n" % (n, mod, mod) +
+           "let up = l.sort(|a, b| a[0] - b[0]);\nprint(up.iter().map(|r| r[1]).list());\n"
+           "let down = l.sort(|a, b| b[0] - a[0]);\nprint(down.iter().map(|r| r[1]).list());\n"
+           "let same = l.sort(|a, b| 0);\nprint(same.iter().map(|r| r[1]).list());\n"
+           "print(l.iter().map(|r| r[1]).list());\n"
+           "let ks = l.iter().map(|r| r[0]).list();\nprint(ks.sort(|a, b| a - b));\nprint(ks.rev());\nprint(ks.slice(%d), ks.slice(-%d).len());\n"
+           "print(ks.has(%d), ks.index(%d), ks.iter().reduce(0, |a, x| a + x), ks.len());\n" % (n // 2, min(n, 3), mod + 1, keys[-1] if keys else 0))
+    idx = list(range(n))
+    up = sorted(idx, key=lambda i: keys[i])
+    down = sorted(idx, key=lambda i: -keys[i])
+    last_key = keys[-1] if keys else 0
+    exp = [fmt_list(up), fmt_list(down), fmt_list(idx), fmt_list(idx), fmt_list(sorted(keys)), fmt_list(keys[::-1]),
+           "%s %d" % (fmt_list(keys[n // 2:]), min(n, 3)),
+           "false %s %s %d" % (str(keys.index(last_key)) if keys else "nil", fmt_num(sum(keys)), n)]
+    return src, "\n".join(exp) + "\n"
+
+
+# ---- lists produced by the library (not by a literal) are full citizens: every producer, also with an empty result, then mutated
+PRODUCERS = [("[]", []), ("[1, 2]", [1, 2]), ("[].iter().list()", []), ("[1, 2].iter().list()", [1, 2]), ("0.times().list()", []), ("3.times().list()", [0, 1, 2]),
+             ("[].iter().into(List.collect)", []), ("[5].iter().into(List.collect)", [5]), ("[1, 2].iter().filter(|x| x > 5).list()", []), ("[1, 2, 3].iter().filter(|x| x > 1).list()", [2, 3]),
+             ("[1, 2].iter().map(|x| x * 2).list()", [2, 4]), ("[].iter().map(|x| x).list()", []), ("[1, 2, 3].slice(1)", [2, 3]), ("[1, 2].slice(2)", []), ("[].slice(0)", []),
+             ("[3, 1, 2].sort(|a, b| a - b)", [1, 2, 3]), ("[].sort(|a, b| a - b)", []), ("[1, 2].rev()", [2, 1]), ("[].rev()", []), ("[1, 2, 3].iter().skip(3).list()", []),
+             ("[1, 2, 3].iter().take(0).list()", []), ("[1, 2].iter().zip([].iter()).list()", []), ("[].iter().chain([].iter()).list()", []), ("[1].iter().chain([2].iter()).list()", [1, 2]),
+             ("(|| { let c = [1, 2]; c.clear(); return c; })()", []), ("(|| { let c = [1]; c.pop(); return c; })()", []), ("(7, 8).iter().list()", [7, 8]), ("().iter().list()", []),
+             ("{}.iter().list()", []), ("''.iter().list()", [])]
+MUTS = ["push1", "push3", "insert0", "insertend", "pop", "remove0", "clear"]
+
+
+def produced_program(pi, muts):
+    expr, model = PRODUCERS[pi]
+    model = list(model)
+    src = ["let l = %s;" % expr, "let alias = l;", "print(l, l.len());"]
+    out = ["%s %d" % (fmt_list(model), len(model))]
+    for k, mname in enumerate(muts):
+        v = 100 + k
+        if mname == "push1":
+            src.append("l.push(%d);" % v); model.append(v)
+        elif mname == "push3":
+            src.append("l.push(%d, %d, %d);" % (v, v + 10, v + 20)); model += [v, v + 10, v + 20]
+        elif mname == "insert0":
+            src.append("l.insert(0, %d);" % v); model.insert(0, v)
+        elif mname == "insertend":
+            src.append("l.insert(l.len(), %d);" % v); model.append(v)
+        elif mname == "pop":
+            src.append("print('pop', l.pop());"); out.append("pop %s" % (fmt_num(model.pop()) if model else "nil"))
+        elif mname == "remove0":
+            if model:
+                src.append("print('rm', l.remove(0));"); out.append("rm %s" % fmt_num(model.pop(0)))
+            else:
+                src.append("try { l.remove(0); } catch e { print('rm!', e.cls().name()); }"); out.append("rm! IndexError")
+        else:
+            src.append("l.clear();"); model = []
+        src.append("print(l, l.len(), l == alias);")
+        out.append("%s %d true" % (fmt_list(model), len(model)))
+    return "\n".join(src) + "\n", "\n".join(out) + "\n"
+
+
 class C11(Check):
     id = "C11"
     level = "exploration"
@@ -189,6 +263,15 @@ class C11(Check):
                             yield ("ops", kind, r if not isinstance(r, dict) else tuple(r.items()), seq)
         for p in PARSE:
             yield ("parse", p)
+        for n in BIG_SIZES:
+            for m in BIG_MODS:
+                yield ("big", n, m)
+        for pi in range(len(PRODUCERS)):
+            for k in range(1, 4):
+                for muts in itertools.product(MUTS, repeat=k):
+                    if k == 3 and tier != "thorough" and muts[0] not in ("push1", "insert0"):
+                        continue
+                    yield ("produced", pi, muts)
         K = 3 if tier == "thorough" else 2
         for si in range(len(SOURCES)):
             for k in range(0, K + 1):
@@ -217,9 +300,16 @@ class C11(Check):
         return pipeline(SOURCES[si], [ADAPT[i] for i in ad], TERMS[ti])
 
     def describe(self, spec):
+        if spec[0] == "big":
+            return "list of %d records with %s distinct keys: stable sorts, rev, slice, has/index, reduce" % (spec[1], spec[2] or "all")
+        if spec[0] == "produced":
+            return "list produced by %s then %s" % (PRODUCERS[spec[1]][0], list(spec[2]))
         return L.render(self.ast(spec))[0].replace("\n", " ")[:500]
 
     def build(self, spec):
+        if spec[0] in ("big", "produced"):
+            src, want = big_program(spec[1], spec[2]) if spec[0] == "big" else produced_program(spec[1], spec[2])
+            return [{"src": src, "step_limit": 3000000}], ("ok", want, None)
         stmts = self.ast(spec)
         src, _ = L.render(stmts)
         try:
@@ -241,7 +331,7 @@ class C11(Check):
         if not ok:
             v = Verdict(False, True, "mismatch", "expected class=%s%s out=%r; got class=%s out=%r err=%r %s" % (
                 cls, "(%s)" % ecls if ecls else "", out, r.get("class"), r.get("out"), r.get("err", "")[-160:], r.get("panic") or ""))
-            v.finding = attribute(spec, exp, r, self.ast(spec))
+            v.finding = attribute(spec, exp, r, None if spec[0] in ("big", "produced") else self.ast(spec))
             return v
         return Verdict(True, True, "%s:%s" % (spec[0], cls))
 
